@@ -435,21 +435,118 @@ def enumerate_specs(tier, seed=0):
     return specs
 
 
+class NonFiniteResetCase:
+    """a reset is a reset whatever the buffer held: a gradient that is legitimately infinite (d sqrt(x)/dx and d (1/x)/dx at x = 0) is cleared by every reset path, and the gradients of later backward calls are the true finite sums.
+    Runs in the extended-real mode of C09 (IEEE inf/nan propagate symbolically: inf * 0 = nan)."""
+    prop = PROP
+
+    def __init__(self, spec):
+        self.spec = spec
+        self.sig = sig_of("nonfinite-reset", spec, None)
+
+    def run(self, env):
+        import synapgrad
+        from synapgrad import nn, optim
+        from ..symnum import xr as XRM
+        from ..symnum.scalar import CTX
+        Tn = T()
+        out = E.Outcome()
+        sp = self.spec
+        prev = (CTX.xr, CTX.rewrite)
+        if env.sym:
+            CTX.xr = XRM.XR("float32")
+            CTX.rewrite = False
+        try:
+            x = Tn(env.const([0.0, 4.0]), requires_grad=True)
+            holder = x
+            if sp["via"] in ("module", "optimizer"):
+                holder = nn.Parameter(x)
+            f = (lambda t: t.sqrt()) if sp["source"] == "sqrt" else (lambda t: 1.0 / t)
+            src = f(holder)
+            if sp["where"] == "leaf":
+                src.sum().backward()                      # holder.grad = [inf, ...]
+                target = holder
+            else:                                          # an interior tensor keeps an infinite gradient (retained)
+                mid = holder * 1.0
+                mid.retain_grad()
+                f(mid).sum().backward()
+                target = mid
+            had = target._grad
+            if env.sym:
+                first_special = any(v.n.op in ("inf", "nan") for v in had.view(np.ndarray).reshape(-1))
+            else:
+                first_special = not bool(np.all(np.isfinite(np.asarray(had, dtype=np.float64))))
+            if not first_special:       # the premise of the scenario, not a property of the code
+                raise sc.Unsupported("the first backward left a finite gradient: nothing to reset")
+            if sp["via"] == "zero_":
+                target.zero_()
+                if target is not holder:
+                    holder.zero_()
+            elif sp["via"] == "module":
+                class M(nn.Module):
+                    def __init__(s):
+                        super().__init__()
+                        s.w = holder
+                M().zero_grad()
+            elif sp["via"] == "optimizer":
+                optim.SGD([holder], lr=0.1).zero_grad()
+            # a further backward through the same tensors: gradients are the fresh finite sums
+            a = env.arr("a", (2,), lo=-2, hi=2)
+            if sp["where"] == "leaf":
+                (holder * Tn(a)).sum().backward()
+                got = holder._grad
+                want = a
+            else:
+                (target * Tn(a)).sum().backward()        # interior node of the earlier call, reused in a new graph
+                got = holder._grad
+                want = a if sp["via"] == "zero_" else None   # module/optimizer resets do not reach the interior buffer: the leaf
+            if got is None:                                   # was reset, and the stale interior buffer must not leak (C04)
+                out.fact("the leaf has a gradient after the second backward", False)
+                return out
+            if env.sym:
+                vals = list(got.view(np.ndarray).reshape(-1))
+                bad = [i for i, v in enumerate(vals) if v.n.op in ("inf", "nan")]
+                out.fact("gradients after a reset are finite", not bad, "element(s) %s are %s" % (bad, [vals[i].n.op for i in bad]))
+                if not bad:
+                    out.pair("gradient after the reset = the new contribution", got, a)
+            else:
+                fin = bool(np.all(np.isfinite(np.asarray(got, dtype=np.float64))))
+                out.fact("gradients after a reset are finite", fin, "gradient %s" % np.asarray(got).tolist())
+                if fin:
+                    out.pair("gradient after the reset = the new contribution", got, a)
+        finally:
+            CTX.xr, CTX.rewrite = prev
+        return out
+
+
+def nonfinite_specs():
+    specs = []
+    for source in ("sqrt", "reciprocal"):
+        for via in ("zero_", "module", "optimizer"):
+            specs.append({"kind": "nonfinite", "source": source, "via": via, "where": "leaf"})
+        specs.append({"kind": "nonfinite", "source": source, "via": "zero_", "where": "interior"})
+    return specs
+
+
 def build(spec):
     spec = dict(spec)
     kind = spec.pop("kind")
+    if kind == "nonfinite":
+        return NonFiniteResetCase(spec)
     return StepCase(spec) if kind == "step" else HistCase(spec)
 
 
 def main(tier, seed):
     t0 = time.time()
-    specs = enumerate_specs(tier, seed)
+    specs = enumerate_specs(tier, seed) + nonfinite_specs()
     results = runner.run_pool(__name__, specs, tier, seed)
     return runner.finish(
         PROP, tier, seed, results, t0,
         bounds={"leaves": "two leaves of shape (2,); leaf a either created directly or computed from non-grad tensors and flagged afterwards", "templates": "m=a*b, r=m+a | m=exp(a/2), n=m*b, r=sum(n) | q=prev*a, r=q+b (reuse)",
                 "inductive step": "every node as root x leaf buffers absent/arbitrary x interior buffers absent/stale/"
                                   "stale+retain_grad x global retain flag",
+                "non-finite resets": "a leaf / a retained interior tensor holding an infinite gradient (sqrt, 1/x at 0) is reset through "
+                                     "Tensor.zero_, Module.zero_grad or Optimizer.zero_grad and differentiated again (extended-real mode)",
                 "histories": "build + <= 3 (quick) / 4 (thorough) further actions over %s; length-4/5 tails sampled with "
                              "VERIF_SEED" % ACTIONS},
         assumptions=["floats are reals",
